@@ -14,34 +14,53 @@ import (
 
 // C14: stripTags. For each case the real template function is called, the
 // same input is parsed with html.ParseFragment (the call stripTags makes) and
-// the resulting forest is dumped for the model, and the result is checked by
-// an independent oracle built on the x/net/html Tokenizer.
+// the resulting forest is dumped for the model (flat, in document order; of
+// any depth), and the result is checked by an independent oracle built on the
+// x/net/html Tokenizer.  All cases of one run go through the same process; a
+// case may carry earlier calls of its own (Before).
 
 type c14Item struct {
 	S *string  `json:"s,omitempty"` // hex: a string item of the config.Slice
 	N *float64 `json:"n,omitempty"` // a non-string item
 }
 
-type c14Case struct {
+type c14Call struct {
 	Input  string      `json:"input"`  // hex
 	Slices [][]c14Item `json:"slices"` // the variadic allowedTagsConfig arguments
 }
 
-type c14Node struct {
-	Type     string      `json:"type"` // elem | text | comment | doctype | other
-	Data     string      `json:"data"` // hex
-	Attrs    [][2]string `json:"attrs,omitempty"`
-	Children []c14Node   `json:"children,omitempty"`
+type c14Case struct {
+	c14Call
+	// Before: calls made on the same function value before the observed one;
+	// their results are discarded. What stripTags returns must not depend on them.
+	Before []c14Call `json:"before,omitempty"`
 }
 
+// c14Tok is one token of the parse tree in document order: the tree is handed
+// over flat (a tree thousands of levels deep cannot be nested JSON).
+type c14Tok struct {
+	K string      `json:"k"`           // o(pen element) | c(lose) | t(ext) | m (comment) | y (doctype) | x (other)
+	D string      `json:"d,omitempty"` // hex: Node.Data
+	A [][2]string `json:"a,omitempty"` // hex key, hex value (elements only)
+}
+
+// c14MaxToks: above this number of nodes only the summary (text, depth, counts)
+// of the forest is handed over.
+const c14MaxToks = 60000
+
 type c14Obs struct {
-	Class     string    `json:"class"` // ok | exec_panic
-	Out       string    `json:"out"`   // hex
-	Forest    []c14Node `json:"forest"`
-	Modelled  bool      `json:"modelled"` // false: the forest has a shape the model's node type cannot carry
-	Why       string    `json:"why,omitempty"`
-	TokOK     bool      `json:"tok_ok"`
-	TokReason string    `json:"tok_reason,omitempty"`
+	Class     string   `json:"class"` // ok | exec_panic
+	Out       string   `json:"out"`   // hex
+	Toks      []c14Tok `json:"toks"`
+	ToksCut   bool     `json:"toks_cut,omitempty"` // more than c14MaxToks nodes: toks is empty
+	Text      string   `json:"text"`               // hex: the text nodes' data in document order
+	Depth     int      `json:"depth"`              // deepest element nesting in the forest
+	Nodes     int      `json:"nodes"`
+	MaxAttrs  int      `json:"max_attrs"` // longest attribute list of one element
+	Modelled  bool     `json:"modelled"`  // false: the forest has a shape the model's node type cannot carry
+	Why       string   `json:"why,omitempty"`
+	TokOK     bool     `json:"tok_ok"`
+	TokReason string   `json:"tok_reason,omitempty"`
 }
 
 func init() {
@@ -58,10 +77,9 @@ func init() {
 	}
 }
 
-func runC14(c c14Case) (obs c14Obs) {
-	input := unhx(c.Input)
-	slices := make([]config.Slice, len(c.Slices))
-	for i, sl := range c.Slices {
+func slicesC14(in [][]c14Item) []config.Slice {
+	slices := make([]config.Slice, len(in))
+	for i, sl := range in {
 		s := config.Slice{}
 		for _, it := range sl {
 			if it.S != nil {
@@ -73,6 +91,19 @@ func runC14(c c14Case) (obs c14Obs) {
 			}
 		}
 		slices[i] = s
+	}
+	return slices
+}
+
+func runC14(c c14Case) (obs c14Obs) {
+	input := unhx(c.Input)
+	slices := slicesC14(c.Slices)
+	f := templatefunctions.StriptagsFunc{}.Func(context.Background()).(func(string, ...config.Slice) string)
+	for _, b := range c.Before {
+		func() {
+			defer func() { _ = recover() }()
+			_ = f(unhx(b.Input), slicesC14(b.Slices)...)
+		}()
 	}
 
 	obs.Modelled = true
@@ -93,7 +124,6 @@ func runC14(c c14Case) (obs c14Obs) {
 				obs.Class = clsPanic
 			}
 		}()
-		f := templatefunctions.StriptagsFunc{}.Func(context.Background()).(func(string, ...config.Slice) string)
 		out = f(input, slices...)
 		obs.Class = clsOK
 	}()
@@ -105,9 +135,17 @@ func runC14(c c14Case) (obs c14Obs) {
 		obs.Modelled = false
 		obs.Why = "ParseFragment error"
 	}
-	obs.Forest = make([]c14Node, 0, len(doc))
+	d := &c14Dump{obs: &obs}
 	for _, n := range doc {
-		obs.Forest = append(obs.Forest, dumpC14(n, &obs))
+		d.walk(n, 1)
+	}
+	obs.Text = hx(d.text.String())
+	obs.Toks = d.toks
+	if obs.Toks == nil {
+		obs.Toks = []c14Tok{}
+	}
+	if obs.Nodes > c14MaxToks {
+		obs.Toks, obs.ToksCut = []c14Tok{}, true
 	}
 
 	obs.TokOK, obs.TokReason = oracleC14(out, c.Slices)
@@ -127,32 +165,60 @@ func asciiLowerC14(s string) string {
 	return string(b)
 }
 
-func dumpC14(n *html.Node, obs *c14Obs) c14Node {
-	var d c14Node
-	d.Data = hx(n.Data)
+type c14Dump struct {
+	obs  *c14Obs
+	toks []c14Tok
+	text strings.Builder
+}
+
+func (d *c14Dump) walk(n *html.Node, depth int) {
+	obs := d.obs
+	obs.Nodes++
+	keep := obs.Nodes <= c14MaxToks
 	switch n.Type {
 	case html.ElementNode:
-		d.Type = "elem"
-		for _, a := range n.Attr {
-			d.Attrs = append(d.Attrs, [2]string{hx(a.Key), hx(a.Val)})
+		if depth > obs.Depth {
+			obs.Depth = depth
 		}
+		if len(n.Attr) > obs.MaxAttrs {
+			obs.MaxAttrs = len(n.Attr)
+		}
+		if keep {
+			t := c14Tok{K: "o", D: hx(n.Data)}
+			for _, a := range n.Attr {
+				t.A = append(t.A, [2]string{hx(a.Key), hx(a.Val)})
+			}
+			d.toks = append(d.toks, t)
+		}
+		for c := n.FirstChild; c != nil; c = c.NextSibling {
+			d.walk(c, depth+1)
+		}
+		if keep {
+			d.toks = append(d.toks, c14Tok{K: "c"})
+		}
+		return
 	case html.TextNode:
-		d.Type = "text"
-	case html.CommentNode:
-		d.Type = "comment"
-	case html.DoctypeNode:
-		d.Type = "doctype"
-	default:
-		d.Type = "other"
-	}
-	for c := n.FirstChild; c != nil; c = c.NextSibling {
-		if n.Type != html.ElementNode && obs.Modelled {
-			obs.Modelled = false
-			obs.Why = "non-element node with children"
+		d.text.WriteString(n.Data)
+		if keep {
+			d.toks = append(d.toks, c14Tok{K: "t", D: hx(n.Data)})
 		}
-		d.Children = append(d.Children, dumpC14(c, obs))
+	case html.CommentNode:
+		if keep {
+			d.toks = append(d.toks, c14Tok{K: "m", D: hx(n.Data)})
+		}
+	case html.DoctypeNode:
+		if keep {
+			d.toks = append(d.toks, c14Tok{K: "y", D: hx(n.Data)})
+		}
+	default:
+		if keep {
+			d.toks = append(d.toks, c14Tok{K: "x"})
+		}
 	}
-	return d
+	if n.FirstChild != nil && obs.Modelled {
+		obs.Modelled = false
+		obs.Why = "non-element node with children"
+	}
 }
 
 // ---- independent oracle --------------------------------------------------
